@@ -23,6 +23,7 @@ import NeoFS.Driver.ShardSteps
 import NeoFS.Driver.Assemble
 import NeoFS.Driver.IRContainer
 import NeoFS.Driver.IRNetmap
+import NeoFS.Driver.FSTree
 open NeoFS NeoFS.Driver
 
 /-- State of all stateful models; pure models need none. -/
@@ -36,6 +37,7 @@ structure DState where
   acl : NeoFS.Driver.ACLSt := {}
   wcr : NeoFS.WCFlush.St := {}
   shardst : NeoFS.ShardSteps.St := {}
+  fstree : NeoFS.Driver.FSt := {}
   irn : NeoFS.IRNetmap.St := ⟨0, false, 0⟩
 
 def stepLine (s : DState) (line : String) : DState × String :=
@@ -54,6 +56,7 @@ def stepLine (s : DState) (line : String) : DState × String :=
   | "assemble" => (s, assembleStep o)
   | "irc" => (s, ircStep o)
   | "irn" => let (n, out) := irnStep s.irn o; ({ s with irn := n }, out)
+  | "fstree" => let (f, out) := fstreeStep s.fstree o; ({ s with fstree := f }, out)
   | "put" => (s, putStep o)
   | "validate" => (s, validateStep o)
   | "wcread" => let (w, out) := wcreadStep s.wcr o; ({ s with wcr := w }, out)
